@@ -322,6 +322,9 @@ func cmdCheck(eng *Engine, o options, start time.Time) int {
 	var ctxs []*FnCtx
 	var stale []string
 	trusted := map[string]bool{}
+	if o.prop == "C16" {
+		keys = nil // lock discipline: every function is swept below, whatever its tags
+	}
 	for _, k := range keys {
 		spec := eng.specs.Funcs[k]
 		fn := eng.fnByKey[k]
@@ -339,6 +342,42 @@ func cmdCheck(eng *Engine, o options, start time.Time) int {
 		c := eng.verifyFunction(fn, spec, false)
 		ctxs = append(ctxs, c)
 		all = append(all, c.obls...)
+	}
+	if o.prop == "C16" {
+		// lock discipline: every function of the six packages, with or without a contract
+		done := map[*ssa.Function]bool{}
+		for _, c := range ctxs {
+			done[c.fn] = true
+		}
+		for _, fn := range eng.allFns {
+			if done[fn] || len(fn.Blocks) == 0 || fn.Pkg == nil {
+				continue
+			}
+			pp := strings.TrimPrefix(fn.Pkg.Pkg.Path(), eng.modPath)
+			switch pp {
+			case "/store", "/store/index", "/store/primary/multihash", "/store/primary/cid", "/store/freelist", "/store/filecache":
+			default:
+				continue
+			}
+			if fn.Name() == "init" || strings.HasPrefix(fn.Name(), "init#") {
+				continue
+			}
+			spec := eng.findSpec(fn)
+			if spec != nil && spec.Trusted != "" {
+				continue
+			}
+			c := eng.verifyFunction(fn, spec, true)
+			c.lockOnly = true
+			var sel []*Obligation
+			for _, ob := range c.obls {
+				if ob.Kind == "lock" {
+					sel = append(sel, ob)
+				}
+			}
+			c.obls = sel
+			ctxs = append(ctxs, c)
+			all = append(all, c.obls...)
+		}
 	}
 	// lemmas
 	lemmaObls := lemmaObligations(eng, o.prop)
@@ -408,7 +447,7 @@ func cmdCheck(eng *Engine, o options, start time.Time) int {
 		}
 		sort.Strings(fr.Assumed)
 		fr.Unsupported = c.unsup
-		if len(c.unsup) > 0 {
+		if len(c.unsup) > 0 && !c.lockOnly {
 			// outside the subset: nothing about this function is decided
 			ob := &Obligation{Name: c.funcName + "#subset", Kind: "subset", Text: strings.Join(c.unsup, "; ")}
 			total++
